@@ -33,6 +33,10 @@ func (c *betterCollector) SetMetadata(in interface{}) error {
 	if err != nil {
 		return errors.WithStack(err)
 	}
+	// a document that cannot be encoded would fail every later Resolve
+	if _, err := doc.MarshalBSON(); err != nil {
+		return errors.Wrap(err, "metadata document cannot be encoded")
+	}
 
 	c.metadata = doc
 	return nil
